@@ -9,6 +9,8 @@ def step (line : String) : String :=
   | "c08t" :: a => Drv.C08.opT a
   | "c08u" :: a => Drv.C08.opU a
   | "c09" :: a => Drv.C09.op a
+  | "c03s" :: a => Drv.C03.opS a
+  | "c03r" :: a => Drv.C03.opR a
   | "c18h" :: a => Drv.C18.opH a
   | "c07" :: a => Drv.C18.opC a
   | "c07xy" :: a => Drv.C18.opXY a
